@@ -134,3 +134,20 @@ claim(
     'that is a necessary condition without being a frozen fragment.',
     'scanner-loop path rule over a structural path walker + raise-site agreement + debug effect rule',
 )
+
+claim(
+    'C01',
+    'Decided (necessary conditions, each a rule over the current sources): (R1) no value obtained from get_parent() '
+    'reaches match_selectors without a dominating "not is_doc" test; (R2) for ^= $= *= ~= the pattern compiled for an '
+    'empty value has the empty language; (R3) token names = dispatch keys, every regex group a handler reads exists '
+    'in the token pattern that carries the key, every simple/special pseudo-class name has its branch/table row; '
+    '(R4) the rel_type strings the parser can store = the REL_* constants the matcher branches on; (R5) every '
+    'Selector slot and SEL_* flag is consulted by a guard of the form "if [pre and] not self.match_X(): continue" '
+    'ahead of the success assignment, and the helper predicates are AND-folds; (R6) each attribute-operator pattern '
+    'template, per operator x flags variant x literal shape and with re.match semantics, is language-equal to the '
+    "operator's definition; (R7) on every path taken for a comma the per-alternative parser state is reset; (R8) class "
+    'splitting and :empty use exactly the CSS whitespace set. Not decided: soundness/completeness of the tree walks '
+    'over all trees x selectors.',
+    '',
+    'taint/dominance rule + table agreement + regex language equality + event-tracking path walk',
+)
